@@ -70,6 +70,19 @@ class C01(Prop):
                 yield {"k": "table", "as": [list(p) for p in allp], "bs": [list(p) for p in sub]}
         for c in self.chains:
             yield c
+        # wide registers (across the 64-bit word boundary): random dense and sparse operators, products and tables
+        rng = self.rng
+        for n in (63, 64, 65, 70, 130):
+            ops = []
+            for t in range(24):
+                dense = t % 2 == 0
+                w = [rng.randrange(4) if (dense or rng.random() < 0.08) else 0 for _ in range(n)] + [rng.randrange(4)]
+                w[n - 1 - (t % 3)] = w[n - 1 - (t % 3)] or rng.randrange(1, 4)
+                ops.append(w)
+            for t in range(12):
+                yield {"k": "mul", "a": ops[2 * t], "b": ops[2 * t + 1]}
+            yield {"k": "table", "as": ops[:8], "bs": ops[8:20]}
+            yield {"k": "table", "as": ops[:10], "bs": ops[:10], "pkg": "py"}
         # live operands: the same Pauli object is multiplied, changed in place (rotate_by), and multiplied again
         for t, c in enumerate(self.chains[:60]):
             yield {"k": "live", "start": c["start"], "steps": c["steps"][:10]}
